@@ -109,6 +109,12 @@ func (c19) Gen(seed uint64, run int, tier string) *core.Case {
 						op.Chunks[0] = 512
 					}
 				}
+				if r.IntN(8) == 0 {
+					// an explicit directory object: its key ends in '/' and is a key of its own
+					op.Key += "/"
+					op.Size, op.Chunks = 0, nil
+					op.Mode = []string{s3c.ModeSigned, s3c.ModeUnsigned}[r.IntN(2)]
+				}
 			case x < 32:
 				op.Kind = "putfail"
 				op.Sub = []string{"nobucket", "sha", "sig"}[r.IntN(3)]
@@ -129,6 +135,10 @@ func (c19) Gen(seed uint64, run int, tier string) *core.Case {
 			case x < 70:
 				op.Kind = "delete"
 				op.Size = 1 + r.IntN(300)
+				if r.IntN(8) == 0 {
+					op.Key += "/"
+					op.Size = 0
+				}
 			case x < 74:
 				op.Kind = "deleteheld"
 				op.B = 2
@@ -297,7 +307,11 @@ func (c19) Exec(c *core.Case) (out *core.Outcome) {
 			b := c19Buckets[op.B%3]
 			switch op.Kind {
 			case "delete", "tagput", "tagdel":
-				mustOK(root.Do(s3c.PutObject(b, op.Key, body(op.Key, 1+op.Size))), "pre object")
+				if strings.HasSuffix(op.Key, "/") {
+					mustOK(root.Do(s3c.PutObject(b, op.Key, nil)), "pre directory object")
+				} else {
+					mustOK(root.Do(s3c.PutObject(b, op.Key, body(op.Key, 1+op.Size))), "pre object")
+				}
 			case "deleteheld":
 				mustOK(root.Do(s3c.PutObject(b, op.Key, body(op.Key, 33))), "pre held object")
 				hold(b, op.Key)
